@@ -198,6 +198,8 @@ def gen_lqr_case(rng, big=True, small=None, mpc=False):
                 x0scale=rng.choice([0, 1e-3, 1, 1, 10, 1e4]), qshape=rng.choice(["full", "full", "q3", "p2", "q3p2"]),
                 qexpand=rng.random() < 0.5, mixed=(Bn > 1 and rng.random() < 0.35),
                 extra=rng.randint(0, 4), c2=rng.random() < 0.3, dt=1, data_seed=rng.randrange(1 << 30))
+    if rng.random() < 0.08 and dtype == "float64":
+        case["qstyle"] = "psd"
     if case["sys"] == "ltvc":
         case["c1"] = "rand"
     if case["sys"] in ("lti", "lti_shared") and rng.random() < 0.4:
@@ -248,6 +250,13 @@ def corpus():
         c[k] = v
         c["ops"] = [["solve", "none", {}], ["clock", 9, "reset"], ["solve", ["rand", 1e4, 4], {"uview": "transposed"}],
                     ["solve", "prev", {"prev_obj": True}]]
+        out.append(c)
+    # the exact guard of the code: Q_t singular (PSD) with PD input block, cross terms, every system kind
+    for sysk, sh in (("lti", (2, 6, 3, 2)), ("ltv", (3, 4, 2, 1)), ("ltvc", (1, 10, 4, 3)), ("lti_shared", (2, 3, 1, 2))):
+        c = gen_lqr_case(rng, small=sh)
+        c.update(sys=sysk, dtype="float64", c1="rand", mixed=False, condQ=10, qscale=1, pscale=1, x0scale=1, cscale=1, bscale=1, rho=0.9,
+                 astyle="rand", bstyle="full", dt=1, qstyle="psd")
+        c["ops"] = [["solve", "none", {}], ["clock", 5, "set"], ["solve", ["rand", 30.0, 3], {"style": "kw"}], ["solve", "prev", {"prev_obj": True}]]
         out.append(c)
     # float32 with views and a mixed batch
     c = gen_lqr_case(rng, small=(3, 6, 2, 2))
@@ -1074,7 +1083,7 @@ def run_mpc_linear(ctx: Ctx, case, lines, metas):
             ok &= check_solution(ctx, case, pcall, refs, x, u, cost, tag, ubar=uin)
             nums, L = U.linear_nums(case, pcall, 0, uin)
             meta = (case, call, len(rec.calls) - 1, int(stepper.patience_count), x[0].detach().double().numpy(), u[0].detach().double().numpy(),
-                    float(cost[0].detach()), (refs[0], refs[0].tols(None if uin is None else uin[0])), None)
+                    float(cost[0].detach()), (refs[0], refs[0].tols(None if uin is None else uin[0])), None, int(mpc.stepper.max_steps))
             line = U.mpc_line(case, nums, L, uin is not None, steps_eff, case["patience"], pc0, case["decreasing"], case["tol"])
             lines.append(line)
             metas.append(meta)
@@ -1254,7 +1263,7 @@ def run_mpc_nls(ctx: Ctx, case, lines, metas):
             sens = nls_sensitivity(case, spc, one_mpc)
             fin = rec.calls[-1][0] if rec.calls else None
             meta = (case, call, len(rec.calls) - 1, int(stepper.patience_count), x[0].detach().double().numpy(), u[0].detach().double().numpy(),
-                    float(cost[0].detach()), sens, (costs, spc, None if fin is None else fin[0].detach().double().numpy()))
+                    float(cost[0].detach()), sens, (costs, spc, None if fin is None else fin[0].detach().double().numpy()), int(mpc.stepper.max_steps))
             line = U.mpc_line(case, U.sin_nums(case, spc, None if uin is None else uin[0]), 0, uin is not None,
                               steps_eff, case["patience"], pc0, case["decreasing"], case["tol"])
             lines.append(line)
@@ -1295,7 +1304,8 @@ class LinView:
 
 def compare_mpc_model(ctx: Ctx, reps, metas):
     eps = common.EPS["float64"]
-    for rep, (case, call, niter, pc, xi, ui, ci, extra, aux) in zip(reps, metas):
+    for rep, (case, call, niter, pc, xi, ui, ci, extra, aux, *more) in zip(reps, metas):
+        meta_ms = more[0] if more else None
         ns, nc, T = case["ns"], case["nc"], case["T"]
         if call == "nls":
             xm, um, cm, Km, km = U.parse_lqr_reply(rep, ns, nc, T)
@@ -1328,7 +1338,9 @@ def compare_mpc_model(ctx: Ctx, reps, metas):
             if eK > 1 or ek > 1:
                 ctx.disagree("gains", case, f"nonlinear system: K differs by {np.abs(Ki - Km).max():.3e} (ratio {eK:.2f}), k by {np.abs(ki - km).max():.3e} (ratio {ek:.2f})")
             continue
-        nm, pcm, xm, um, cm = U.parse_mpc_reply(rep, ns, nc, T)
+        nm, pcm, xm, um, cm, msm = U.parse_mpc_reply(rep, ns, nc, T)
+        if msm != meta_ms:
+            ctx.disagree("mpc", case, f"call {call + 1}: MPC.__init__ left max_steps = {meta_ms} on the stepper, model (mpcInit) {msm}")
         if case["kind"] == "mpc_lin":
             r, (tol_u, tol_x, _sg) = extra
             if nm != niter or pcm != pc:
